@@ -5,5 +5,29 @@ INFO = {
     "trusted_base": ["Report values are an abstract sort with typed fields per literal key (station_id, energy, energy_units); a charge event carries these keys (vehicle_charge_event's report contract)", "_to_reports: tuple(map(_cast_as_report, acc.keys())) yields one report per accumulator key (assumed: Report construction is not a solver sort)", "str(float) is an uninterpreted injective-free function of the number",
                      "datetime.time / timedelta arithmetic = seconds of day, cyclic difference (assumed contract of time_diff)", "h3.h3_to_geo uninterpreted"],
     "assumptions": ["a request can be picked up only while admitted and not yet cancelled: departure < sim_time < departure + timeout"],
-    "not_decided": ["records can be parsed back from the written log", "StatsHandler / summary_stats aggregation", "vehicle_move_event field values"],
+    "not_decided": ["records can be parsed back from the written log and StatsHandler / summary_stats aggregation: bounded stand-in only (handlers are mutable objects writing files)", "vehicle_move_event field values"],
 }
+
+
+def extra_obligations(repo, world, ex, R, tier, timeout_ms):
+    """bounded stand-in (never counted as proved): the real StatsHandler / EventfulHandler on seeded random report batches"""
+    import os, subprocess, time
+    root = os.path.dirname(os.path.dirname(os.path.abspath(__file__)))
+    script = os.path.join(root, "findings", "bounded_C19.py")
+    hive = os.environ.get("HIVE_REPO", "/repo")
+    seed = os.environ.get("VERIF_SEED", "0") or "0"
+    runs = "150" if tier == "quick" else "1500"
+    cmd = ["/venv/bin/python", script, seed, runs]
+    t0 = time.time()
+    p = subprocess.run(cmd, capture_output=True, text=True, cwd=hive, env=dict(os.environ, PYTHONPATH=hive), timeout=3000)
+    out = p.stdout.strip().splitlines()
+    hit = any(l.startswith("REPRODUCED") for l in out)
+    ok = (not hit) and p.returncode == 0 and any(l.startswith("not reproduced") for l in out)
+    return [{"id": "C19.bounded.handlers.random_report_batches", "kind": "bounded",
+             "status": "held" if ok else ("refuted" if hit else "error"), "backend": "native-randomised-run",
+             "secs": round(time.time() - t0, 2), "props": ["C19"],
+             "bound": f"{runs} seeded runs (seed {seed}) of 1-4 flushes of 0-8 random reports through the real StatsHandler and EventfulHandler: "
+                      "summary counts = add / cancel events, distance per activity = move events, event.log records parse back to exactly the "
+                      "filed reports (each once), station-load records = sums of the flush's charge events",
+             "command": f"cd {hive} && PYTHONPATH={hive} " + " ".join(cmd),
+             "detail": ("\n".join(out[-3:])[:800] if not ok else out[-1][:300]) + (p.stderr[-300:] if not ok and not hit else "")}]
